@@ -218,10 +218,30 @@ def _classes(case):
         out.append("threaded")
     if any("repeat" in s for s in h):
         out.append("repeat")
-    out += sorted({"fn:" + c["fn"] for s in h for c in ([s["call"]] if "call" in s else s.get("calls", []))})
+    calls = [c for s in h for c in ([s["call"]] if "call" in s else s.get("calls", []))]
+    out += sorted({"fn:" + c["fn"] for c in calls})
     if any("calls" in s for s in h):
         out.append("family")
+    out += _rep_classes(calls)
     return out
+
+
+def _rep_classes(calls):
+    """How the caller's data is represented in the calls (the representations a callee could modify in place)."""
+    out = set()
+    for c in calls:
+        a = c["a"]
+        if a.get("zd"):
+            out.add("rep:numbers as 0-d arrays")
+        if a.get("arr") in ("view", "f"):
+            out.add("rep:covariance array %s" % ("view of a larger array" if a["arr"] == "view" else "Fortran-ordered"))
+        if a.get("cont") in ("tuple", "array", "column"):
+            out.add("rep:sequence as %s" % a["cont"])
+        if a.get("layout"):
+            out.add("rep:vector layout " + a["layout"])
+        if a.get("kind", "float") != "float" or c["fn"] in ("angle_op", "angle_rounded", "coord_geo"):
+            out.add("rep:angle / coordinate objects")
+    return sorted(out)
 
 
 # ------------------------------------------------------------------------------------------------ the state machine
@@ -499,6 +519,7 @@ def _classes_sched(case):
     if case.get("shared"):
         out.append("argument objects shared between the threads")
     out += ["fn:" + n for n in names]
+    out += _rep_classes(cs)
     return out
 
 
